@@ -2078,6 +2078,10 @@ func (stmt *UpdateStmt) execAt(ctx context.Context, tx *SQLTx, params map[string
 				return nil, err
 			}
 
+			if rval.IsNull() && col.notNull {
+				return nil, fmt.Errorf("%w (%s)", ErrNotNullableColumnCannotBeNull, col.colName)
+			}
+
 			valuesByColID[col.id] = rval
 		}
 
